@@ -38,6 +38,7 @@ enum Req {
     W(u64, usize, u64),
     Z(u64, usize),
     S,
+    L(u64), // file size limit from here on (0: none)
 }
 
 #[derive(Clone)]
@@ -47,6 +48,25 @@ enum GOp {
     D(u64, u64),
     F,
     K,
+}
+
+thread_local! {
+    static SIM_LIMIT: std::cell::RefCell<Option<SimFile>> = std::cell::RefCell::new(None);
+}
+
+/// file size limit: on the model through SimFile, on real files through RLIMIT_FSIZE (SIGXFSZ ignored)
+fn set_limit(limit: u64) {
+    let sim = SIM_LIMIT.with(|s| s.borrow().clone());
+    match sim {
+        Some(f) => f.set_size_limit(if limit == 0 { None } else { Some(limit as usize) }),
+        None => unsafe {
+            libc::signal(libc::SIGXFSZ, libc::SIG_IGN);
+            let mut rl = libc::rlimit { rlim_cur: 0, rlim_max: 0 };
+            libc::getrlimit(libc::RLIMIT_FSIZE, &mut rl);
+            rl.rlim_cur = if limit == 0 { rl.rlim_max } else { limit as libc::rlim_t };
+            libc::setrlimit(libc::RLIMIT_FSIZE, &rl);
+        },
+    }
 }
 
 async fn run_reqs<T: Qcow2IoOps>(io: &T, reqs: &[Req]) -> Vec<String> {
@@ -93,6 +113,10 @@ async fn run_reqs<T: Qcow2IoOps>(io: &T, reqs: &[Req]) -> Vec<String> {
                     }
                 }
             },
+            Req::L(limit) => {
+                set_limit(*limit);
+                "ok".to_string()
+            }
             Req::S => match io.fsync(0, usize::MAX, 0).await {
                 Ok(()) => "ok".to_string(),
                 Err(_) => "err".to_string(),
@@ -220,13 +244,17 @@ pub fn run(script: &str, dir: &str) {
                     "R" => reqs.push(Req::R(u[1].parse().unwrap(), u[2].parse().unwrap())),
                     "W" => reqs.push(Req::W(u[1].parse().unwrap(), u[2].parse().unwrap(), u[3].parse().unwrap())),
                     "Z" => reqs.push(Req::Z(u[1].parse().unwrap(), u[2].parse().unwrap())),
+                    "L" => reqs.push(Req::L(u[1].parse().unwrap())),
                     _ => reqs.push(Req::S),
                 }
             }
             i += 1;
             // SimFile
             let sim = SimFile::new("sim", Vec::new());
+            SIM_LIMIT.with(|s| *s.borrow_mut() = Some(sim.clone()));
             let r = futures::executor::block_on(run_reqs(&sim, &reqs));
+            SIM_LIMIT.with(|s| *s.borrow_mut() = None);
+            set_limit(0);
             for (k, l) in r.iter().enumerate() {
                 println!("{} sim {} {}", id, k, l);
             }
@@ -236,6 +264,7 @@ pub fn run(script: &str, dir: &str) {
             for backend in ["sync", "tokio", "uring"] {
                 let rq = reqs.clone();
                 let out = on_real(backend, &path, &[], move |name, p| run_backend_reqs(name, p, &rq));
+                set_limit(0);
                 for (k, l) in out.iter().enumerate() {
                     if l.starts_with("final") {
                         println!("{} {} {}", id, backend, l);
